@@ -1325,7 +1325,9 @@ class Interp:
             if isinstance(idx, int) and idx < 0:
                 idx = simp(n + idx)
             inb = simp(z3.And(idx >= 0, idx < n)) if (is_z3(idx) or is_z3(n)) else (0 <= idx < n)
-            if not self.decide(inb):
+            if self.pure_depth:
+                self.check_raise(z3.Not(inb) if is_z3(inb) else (not inb), "IndexError", node, implicit="index")
+            elif not self.decide(inb):
                 self.raise_("IndexError", node, implicit="index")
             return s.get(idx)
         raise Unsupported(f"subscript on {obj!r}")
